@@ -1,10 +1,11 @@
 #!/bin/bash
 # usage: tools/eval_all_seeds.sh [PROP ...]   evaluates every /tmp/seed/<PROP>/out/<v>/ not yet evaluated
 cd "$(dirname "$0")/.."
-props=("$@"); [ ${#props[@]} -eq 0 ] && props=($(ls /tmp/seed))
+root="${SEEDROOT:-/tmp/seed}"
+props=("$@"); [ ${#props[@]} -eq 0 ] && props=($(ls "$root"))
 for p in "${props[@]}"; do
-  for v in a b; do
-    src=/tmp/seed/$p/out/$v
+  for v in a b c d; do
+    src=$root/$p/out/$v
     [ -f "$src/patch.diff" ] || continue
     [ -f "seeded/$p-$v/verdict.json" ] && [ -z "${FORCE:-}" ] && continue
     [ -f "props/$(echo $p | tr A-Z a-z).py" ] || continue
